@@ -17,7 +17,7 @@ RULE = ("M {1,2,5} x backlog {M+1, 3M, 50} x durations {0, 1ms, 1s, 6s} x tasks_
         "fingerprint = (broker, M, backlog, duration, tasks_limit, queues) | (plugin, sequence); trivial = none")
 ASSUMPTIONS = ["Redis and RabbitMQ are wire-level fakes", "virtual time; run() must return within longest actor + graceful period + 10 s after the M-th completion"]
 EVAL_COUNTER = "runs_judged"
-REQUIRED = ["runs_judged", "leftovers_checked", "plugin_enqueues", "runs_limit_lt_backlog_concurrent", "late_arrival_runs"]
+REQUIRED = ["runs_judged", "leftovers_checked", "plugin_enqueues", "runs_limit_lt_backlog_concurrent", "late_arrival_runs", "runs_with_due_recurring_jobs"]
 CASE_TIMEOUT = 150
 
 
@@ -38,6 +38,9 @@ def gen_cases(tier, seed):
             cases.append({"type": "limit", "kind": kind, "M": M, "backlog": backlog if rnd.random() < 0.7 else M, "d": d, "tl": tl, "nq": nq, "seed": rnd.randrange(10**6), "late": rnd.random() < 0.5,
                           "leak": kind != "rabbit" and rnd.random() < 0.35,  # (on RabbitMQ a leaked cancellation shrinks the prefetch window: C09's finding)
                           "latency": None if kind == "mem" else rnd.choice([None, 0.002])})
+    for c in cases:
+        # every third backlog: a third of its jobs are recurring ones whose first slot comes up just before the worker starts
+        c["recurring_due"] = c["seed"] % 3 == 0
     for i in range({"quick": 12, "thorough": 150}[tier]):
         cases.append({"type": "plugin", "kind": "mem", "seed": rnd.randrange(10**6), "len": rnd.choice([3, 6, 10])})
     return cases
@@ -65,6 +68,7 @@ async def limit_scenario(loop, case, out, stats, fps, samples):
 
         PRIOS = [PrioritiesT.MEDIUM, PrioritiesT.MEDIUM, PrioritiesT.HIGH, PrioritiesT.LOW]
         prio = {}
+        recurring_due = set()
 
         def dur(qi):
             return [0.10, 0.25, 0.17][qi % 3] if d == "mixed" else d
@@ -80,7 +84,17 @@ async def limit_scenario(loop, case, out, stats, fps, samples):
                 # the actor lets a CancelledError escape: the execution was started and is over, it counts
                 script = {"do": "raise", "exc": "CancelledError", "d": dur(qi)}
                 stats["leaked_cancellations"] += 1
-            await w.job(f"act{qi}", id_, script, queue=queues[qi], retries=2, timeout=timedelta(seconds=60), store_result=False, priority=prio[id_]).enqueue()
+            kwj = {}
+            if case.get("recurring_due") and i % 3 == 2:
+                # a recurring job whose first slot comes up just before the worker starts: due, never run yet
+                from datetime import datetime as _dt
+
+                kwj = {"deferred_until": _dt.now() + timedelta(seconds=0.05 + 0.01 * i), "deferred_by": timedelta(hours=1)}
+                recurring_due.add(id_)
+            await w.job(f"act{qi}", id_, script, queue=queues[qi], retries=2, timeout=timedelta(seconds=60), store_result=False, priority=prio[id_], **kwj).enqueue()
+        if recurring_due:
+            await asyncio.sleep(1.2)  # every first slot has come up (Redis scores are whole seconds)
+            stats["runs_with_due_recurring_jobs"] += 1
         graceful = 20.0  # longer than every actor here: forced cancellation is C03's subject
         worker = w.worker([r], messages_limit=M, tasks_limit=tl, graceful_shutdown_time=graceful, handle_signals=[])
         # invariant at a hook (harness-side class-level wrapper): after every task-done callback the stop flag must be
@@ -179,6 +193,8 @@ async def limit_scenario(loop, case, out, stats, fps, samples):
             stats["leftovers_checked"] += 1
             place = snap.get(id_, [])
             st = w.rig.stored(id_)
+            if id_ in recurring_due and place == ["delayed"]:
+                continue  # still in the delayed store: whether it is still DUE is decided by the fresh consumer below
             if place != ["waiting"]:
                 out.append(V("leftover_touched", kind, f"place={place[0] if place else 'nowhere'}", f"{id_} was never started but is at {place} after run() returned"))
                 break
@@ -186,7 +202,7 @@ async def limit_scenario(loop, case, out, stats, fps, samples):
                 out.append(V("leftover_touched", kind, "counter", f"{id_} never started but carries already_tried={st[1]['tried']}"))
                 break
         # ... and still what they were: a fresh consumer gets each waiting leftover once, under its own priority
-        waiting = {i for i in ids if i not in started and snap.get(i) == ["waiting"]}
+        waiting = {i for i in ids if i not in started and (snap.get(i) == ["waiting"] or (i in recurring_due and snap.get(i) == ["delayed"]))}
         if waiting and not any(v["rule"] == "leftover_touched" for v in out):
             got = collections.Counter()
             wrong = []
